@@ -310,4 +310,172 @@ theorem build_ok (caps : Caps.Caps) (call : Retrieve.Call) (t : XNode) (hf : Fil
       simp only [Retrieve.required, List.mem_singleton] at hcap
       subst hcap; exact assert_ok ha
 
+/-! ### Parameter names and their order -/
+
+def nameOf : XNode → Option Str
+  | .elem n _ _ => some n
+  | .text _ => none
+
+def names (l : List XNode) : List Str := l.filterMap nameOf
+
+theorem paramNames_elem (n : Str) (a : List (Str × Str)) (cs : List XNode) : paramNames (.elem n a cs) = names cs := by
+  simp only [paramNames, names]
+  induction cs with
+  | nil => rfl
+  | cons c rest ih =>
+    cases c <;> simp [List.filterMap_cons, nameOf, ih]
+
+theorem names_append (a b : List XNode) : names (a ++ b) = names a ++ names b := by
+  simp [names, List.filterMap_append]
+
+theorem filterPart_names (f : Option Filter) (l : List XNode) (h : filterPart f = .ok l) :
+    (names l).Sublist [nc "filter", s "filter"] := by
+  match f, h with
+  | none, h => simp only [filterPart, pure, Except.pure] at h; injection h with h; subst h; simp [names]
+  | some (.xpath sel), h =>
+    simp only [filterPart] at h
+    split at h
+    · simp only [pure, Except.pure] at h; injection h with h; subst h; simp [names, nameOf]
+    · cases h
+  | some (.subtree c), h =>
+    simp only [filterPart, pure, Except.pure] at h; injection h with h; subst h; simp [names, nameOf]
+  | some (.subtrees cs), h =>
+    simp only [filterPart, pure, Except.pure] at h; injection h with h; subst h; simp [names, nameOf]
+  | some (.other t), h => simp only [filterPart] at h; cases h
+  | some (.element e), h =>
+    simp only [filterPart] at h
+    split at h
+    · rename_i hr
+      simp only [pure, Except.pure] at h; injection h with h; subst h
+      cases e with
+      | text t => simp [rootIsFilter] at hr
+      | elem n a cs =>
+        simp only [rootIsFilter, Bool.or_eq_true, decide_eq_true_eq] at hr
+        rcases hr with hr | hr <;> subst hr <;> simp [names, nameOf]
+    · cases h
+
+theorem withDefaultsPart_names (caps : Caps.Caps) (wd : Option Str) (l : List XNode) (h : withDefaultsPart caps wd = .ok l) :
+    (names l).Sublist [s "ns0:with-defaults"] := by
+  cases wd with
+  | none => simp only [withDefaultsPart, pure, Except.pure] at h; injection h with h; subst h; simp [names]
+  | some mode =>
+    simp only [withDefaultsPart] at h
+    split at h
+    · cases h
+    · cases h
+    · obtain ⟨x, hx, h⟩ := bind_ok h
+      injection h with h; subst h
+      unfold nsLeaf at hx
+      split at hx
+      · injection hx with hx; subst hx; simp [names, nameOf, s]
+      · cases hx
+
+theorem ds_name (hasf : Str → Bool) (wha : String) (loc : Str) (x : XNode) (h : datastoreOrUrl hasf wha loc = .ok x) :
+    nameOf x = some (nc wha) := by
+  unfold datastoreOrUrl at h
+  split at h
+  · obtain ⟨_, _, h⟩ := bind_ok h
+    obtain ⟨u, _, h⟩ := bind_ok h
+    injection h with h; subst h; rfl
+  · obtain ⟨d, _, h⟩ := bind_ok h
+    injection h with h; subst h; rfl
+
+theorem sourcePart_names (caps : Caps.Caps) (src : Option Str) (l : List XNode) (h : sourcePart caps src = .ok l) :
+    (names l).Sublist [nc "source"] := by
+  cases src with
+  | none => simp only [sourcePart, pure, Except.pure] at h; injection h with h; subst h; simp [names]
+  | some loc =>
+    simp only [sourcePart] at h
+    obtain ⟨x, hx, h⟩ := bind_ok h
+    injection h with h; subst h
+    simp [names, ds_name _ _ _ _ hx]
+
+theorem targetPart_names (caps : Caps.Caps) (t : Option Str) (l : List XNode) (h : targetPart caps t = .ok l) :
+    (names l).Sublist [nc "target"] := by
+  cases t with
+  | none => simp only [targetPart, pure, Except.pure] at h; injection h with h; subst h; simp [names]
+  | some loc =>
+    simp only [targetPart] at h
+    obtain ⟨x, hx, h⟩ := bind_ok h
+    injection h with h; subst h
+    simp [names, ds_name _ _ _ _ hx]
+
+theorem configElPart_names (o : Option XNode) (l : List XNode) (h : configElPart o = .ok l) :
+    (names l).Sublist [nc "config", s "config"] := by
+  cases o with
+  | none => simp only [configElPart, pure, Except.pure] at h; injection h with h; subst h; simp [names]
+  | some c =>
+    simp only [configElPart] at h
+    split at h
+    · rename_i hr
+      simp only [pure, Except.pure] at h; injection h with h; subst h
+      cases c with
+      | text t => simp [rootIsConfig] at hr
+      | elem n a cs =>
+        simp only [rootIsConfig, Bool.or_eq_true, decide_eq_true_eq] at hr
+        rcases hr with hr | hr <;> subst hr <;> simp [names, nameOf]
+    · cases h
+
+/-- The parameter elements RFC 6241 / 6243 / 5277 define for each retrieval call, in their order (both spellings of a
+    caller-made `<filter>` / `<config>` root listed). -/
+def rfcOrder : Retrieve.Call → List Str
+  | .get _ _ => [nc "filter", s "filter", s "ns0:with-defaults"]
+  | .getConfig _ _ _ => [nc "source", nc "filter", s "filter", s "ns0:with-defaults"]
+  | .dispatch _ _ _ => [nc "source", nc "filter", s "filter"]
+  | .rpc _ _ _ _ _ => [nc "target", nc "source", nc "filter", s "filter", nc "config", s "config"]
+  | _ => []
+
+/-- get / get-config / dispatch / rpc: whatever is built carries only parameter elements the protocol defines for that call,
+    each at most once, in the protocol's order. -/
+theorem parameter_order (caps : Caps.Caps) (call : Retrieve.Call) (t : XNode) (h : Retrieve.build caps call = .ok t)
+    (hc : rfcOrder call ≠ []) : (paramNames t).Sublist (rfcOrder call) := by
+  cases call with
+  | get f w =>
+    unfold Retrieve.build Retrieve.get at h
+    obtain ⟨fl, hfl, h⟩ := bind_ok h
+    obtain ⟨wl, hwl, h⟩ := bind_ok h
+    injection h with h; subst h
+    simp only [el, paramNames_elem, names_append, rfcOrder]
+    exact List.Sublist.append (filterPart_names f fl hfl) (withDefaultsPart_names caps w wl hwl)
+  | getConfig src f w =>
+    unfold Retrieve.build Retrieve.getConfig at h
+    obtain ⟨x, hx, h⟩ := bind_ok h
+    obtain ⟨fl, hfl, h⟩ := bind_ok h
+    obtain ⟨wl, hwl, h⟩ := bind_ok h
+    injection h with h; subst h
+    simp only [el, paramNames_elem, names_append, rfcOrder]
+    have hx' : names [x] = [nc "source"] := by simp [names, ds_name _ _ _ _ hx]
+    rw [hx']
+    exact List.Sublist.append (List.Sublist.append (List.Sublist.refl _) (filterPart_names f fl hfl)) (withDefaultsPart_names caps w wl hwl)
+  | dispatch cmd src f =>
+    unfold Retrieve.build dispatch at h
+    obtain ⟨root, hr, h⟩ := bind_ok h
+    obtain ⟨sl, hsl, h⟩ := bind_ok h
+    obtain ⟨fl, hfl, h⟩ := bind_ok h
+    obtain ⟨_, hre, _⟩ := named_good cmd root hr
+    subst hre
+    injection h with h; subst h
+    simp only [paramNames_elem, names_append, rfcOrder]
+    exact List.Sublist.append (sourcePart_names caps src sl hsl) (filterPart_names f fl hfl)
+  | rpc cmd tg src f cfg =>
+    unfold Retrieve.build genericRpc at h
+    obtain ⟨root, hr, h⟩ := bind_ok h
+    obtain ⟨tl, htl, h⟩ := bind_ok h
+    obtain ⟨sl, hsl, h⟩ := bind_ok h
+    obtain ⟨fl, hfl, h⟩ := bind_ok h
+    obtain ⟨cl, hcl, h⟩ := bind_ok h
+    obtain ⟨_, hre, _⟩ := named_good cmd root hr
+    subst hre
+    injection h with h; subst h
+    simp only [paramNames_elem, names_append, rfcOrder]
+    have := List.Sublist.append (List.Sublist.append (List.Sublist.append (targetPart_names caps tg tl htl) (sourcePart_names caps src sl hsl))
+      (filterPart_names f fl hfl)) (configElPart_names cfg cl hcl)
+    simpa [List.append_assoc] using this
+  | getSchema _ _ _ => exact absurd rfl hc
+  | poweroff => exact absurd rfl hc
+  | reboot => exact absurd rfl hc
+  | validateEl _ => exact absurd rfl hc
+  | copyEl _ _ => exact absurd rfl hc
+  | subscribe _ _ _ _ => exact absurd rfl hc
+
 end NcVerif.RetrieveP
